@@ -45,6 +45,8 @@ type vzAdv struct {
 	notes         []string
 	regossips     map[uint64]int
 	said          map[uint64]map[string]tmcodec.ConsensusMessage
+	advSigning    bool         // set while an adversarial injection is being built
+	byzUsed       map[int]bool // validators whose keys have signed outside the honest script
 	signedFor     map[string]map[int]map[string]bool
 	lastInc       int
 	resendPending bool
@@ -97,8 +99,9 @@ func (a *vzAdv) keyID(h uint64, j int) int {
 	return -1
 }
 
-func (a *vzAdv) signVote(kind int, h uint64, r uint32, hash string, j int) []byte {
-	// bookkeeping of equivocation: who has signed which targets in (kind, h, r)
+// cast books a valid vote by validator j that is put on the wire as such: who has signed which targets
+// in (kind, h, r). Validators with two targets in one round are equivocators.
+func (a *vzAdv) cast(kind int, h uint64, r uint32, hash string, j int) {
 	k := fmt.Sprintf("%d/%d/%d", kind, h, r)
 	if a.signedFor[k] == nil {
 		a.signedFor[k] = map[int]map[string]bool{}
@@ -107,7 +110,10 @@ func (a *vzAdv) signVote(kind int, h uint64, r uint32, hash string, j int) []byt
 		a.signedFor[k][j] = map[string]bool{}
 	}
 	a.signedFor[k][j][hash] = true
-	if !a.w.beyondModel {
+	if a.advSigning {
+		a.markByz(h, j)
+	}
+	if !a.w.beyondModel && h >= a.nodeNext() {
 		eq := map[int]bool{}
 		for v, t := range a.signedFor[k] {
 			if len(t) > 1 {
@@ -119,6 +125,9 @@ func (a *vzAdv) signVote(kind int, h uint64, r uint32, hash string, j int) []byt
 			a.w.s.Logf("adv: validators %v (>= 1/3 of the power) have now signed two targets in %s: beyond the fault model", eq, k)
 		}
 	}
+}
+
+func (a *vzAdv) signVote(kind int, h uint64, r uint32, hash string, j int) []byte {
 	vt := tmconsensus.VoteTarget{Height: h, Round: r, BlockHash: hash}
 	var sb []byte
 	if kind == 0 {
@@ -127,6 +136,23 @@ func (a *vzAdv) signVote(kind int, h uint64, r uint32, hash string, j int) []byt
 		sb, _ = tmconsensus.PrecommitSignBytes(vt, a.w.fx.SignatureScheme)
 	}
 	return a.w.sign(j, sb)
+}
+
+// markByz: a validator whose key produced a valid vote outside the honest script is Byzantine; once such
+// validators hold a third of the power the run is outside the fault model (for instance they can pull
+// the node into a later round that honest validators never reach).
+func (a *vzAdv) markByz(h uint64, j int) {
+	if a.w.beyondModel || h < a.nodeNext() {
+		return // votes for heights the node has finalized cannot move it any more
+	}
+	if a.byzUsed == nil {
+		a.byzUsed = map[int]bool{}
+	}
+	a.byzUsed[j] = true
+	if p, total := a.power(h, a.byzUsed); p > 0 && 3*p >= total {
+		a.w.beyondModel = true
+		a.w.s.Logf("adv: validators %v (>= 1/3 of the power) have cast valid votes outside the honest script: beyond the fault model", a.byzUsed)
+	}
 }
 
 func (a *vzAdv) voteMsg(kind int, h uint64, r uint32, pkh string, proofs map[string][]gcrypto.SparseSignature) (tmcodec.ConsensusMessage, string) {
@@ -288,6 +314,7 @@ func (a *vzAdv) honestVote() bool {
 	}
 	sort.Ints(who)
 	for _, v := range who {
+		a.cast(kind, a.h, a.r, hash, v)
 		sigs = append(sigs, gcrypto.SparseSignature{KeyID: vzKeyID(a.keyID(a.h, v)), Sig: a.signVote(kind, a.h, a.r, hash, v)})
 	}
 	proofs := map[string][]gcrypto.SparseSignature{hash: sigs}
@@ -490,6 +517,8 @@ func (a *vzAdv) injectBadVote() {
 		sigs, desc = []gcrypto.SparseSignature{{KeyID: kid, Sig: fs}}, "signature by a key outside the validator set"
 	case 9:
 		// a genuine signature first, then the same bytes re-filed under every other key id
+		a.markByz(h, j)
+		a.cast(kind, h, r, hash, j)
 		cm, k := a.voteMsg(kind, h, r, pkh, map[string][]gcrypto.SparseSignature{hash: {{KeyID: kid, Sig: good}}})
 		a.send(cm, k, "valid", fmt.Sprintf("genuine %s %d/%d for %x by %d (to be re-filed)", k, h, r, trunc(hash), j))
 		for k2 := 0; k2 < w.cfg.nVal; k2++ {
@@ -500,6 +529,8 @@ func (a *vzAdv) injectBadVote() {
 		desc = fmt.Sprintf("validator %d's signature re-filed under all other key ids", j)
 	case 10:
 		// mix: one valid, one garbage
+		a.markByz(h, j)
+		a.cast(kind, h, r, hash, j)
 		bad := append([]byte(nil), good...)
 		bad[0] ^= 0x55
 		k2 := (j % (w.cfg.nVal - 1)) + 1
@@ -514,6 +545,8 @@ func (a *vzAdv) injectBadVote() {
 // injectCertificate sends a full, correctly signed > 2/3 certificate that conflicts with or
 // duplicates what the chain decided (the environment holds all keys, so it can double-sign).
 func (a *vzAdv) injectCertificate() {
+	a.advSigning = true
+	defer func() { a.advSigning = false }()
 	w := a.w
 	s := w.s
 	h := a.h
@@ -543,9 +576,21 @@ func (a *vzAdv) injectCertificate() {
 			return
 		}
 	}
+	outside := false
+	if ch, decided := a.chain[h]; (decided && (hash != string(ch.Header.Hash) || r != ch.Proof.Round)) || (!decided && !(a.plan == 1 && len(a.phs) > 0 && hash == string(a.phs[0].Header.Hash) && r == a.r)) {
+		// more than two thirds of the power certify something the honest run does not: validators that
+		// respect their locks cannot produce this next to the chain's own certificates
+		outside = true
+		if !w.beyondModel && h >= a.nodeNext() {
+			w.beyondModel = true
+			w.s.Logf("adv: a certificate outside the honest run is sent: beyond the fault model from here on")
+		}
+	}
+	a.advSigning = outside // re-sending the chain's own certificate is what any peer does
 	var sigs []gcrypto.SparseSignature
 	for j := 1; j < w.cfg.nVal; j++ {
 		if id := a.keyID(h, j); id >= 0 {
+			a.cast(1, h, r, hash, j)
 			sigs = append(sigs, gcrypto.SparseSignature{KeyID: vzKeyID(id), Sig: a.signVote(1, h, r, hash, j)})
 		}
 	}
@@ -636,6 +681,9 @@ func (a *vzAdv) injectBadProposal() {
 				genuine = true
 			}
 			genuineNil := a.signVote(1, prevH, p.Round, "", vict)
+			if genuine {
+				a.cast(1, prevH, p.Round, "", vict)
+			}
 			garbage := append([]byte(nil), genuineNil...)
 			garbage[5] ^= 0x77
 			// the forged signature is filed under the key of the real node, which never is in the puppets' proof
@@ -730,6 +778,7 @@ func (a *vzAdv) injectReplay() {
 		proof.Proofs = map[string][]gcrypto.SparseSignature{}
 		for j := 1; j < w.cfg.nVal; j++ {
 			if id := a.keyID(h, j); id >= 0 {
+				a.cast(1, h, proof.Round, string(hdr.Hash), j)
 				proof.Proofs[string(hdr.Hash)] = append(proof.Proofs[string(hdr.Hash)], gcrypto.SparseSignature{KeyID: vzKeyID(id), Sig: a.signVote(1, h, proof.Round, string(hdr.Hash), j)})
 			}
 		}
@@ -976,6 +1025,9 @@ func runNode(s *vsimcore.Sim, p vsimcore.Params) vsimcore.RunInfo {
 	if s.Pct("f-dup", 40) {
 		cfg.rDup, cfg.rReplay = 5+s.Choose("r", 20), 0
 	}
+	if s.Pct("f-handler-cancel", 40) {
+		cfg.rCancel = 5 + s.Choose("r", 40)
+	}
 	if s.Pct("f-early-timer", 60) {
 		cfg.rEarlyTimer = 2 + s.Choose("r", 30)
 	}
@@ -1048,6 +1100,20 @@ func runNode(s *vsimcore.Sim, p vsimcore.Params) vsimcore.RunInfo {
 		_ = stalled
 		w.finalChecks()
 		info.SimNs = int64(s.SimTime())
+		if w.beyondModel {
+			s.Probe("run_beyond_fault_model")
+		}
+		if !crashEnum && !w.beyondModel && len(adv.chain) > 0 && w.endReason == "quiescent" {
+			// nothing is enabled any more although the peers have decided heights and resent them:
+			// whatever the node has not committed and finalized by now it never will
+			chain := map[uint64]string{}
+			rounds := map[uint64]uint32{}
+			for h, ch := range adv.chain {
+				chain[h] = string(ch.Header.Hash)
+				rounds[h] = ch.Proof.Round
+			}
+			w.orc.checkServing(nd, chain, rounds, cfg.initialHeight+uint64(len(chain))-1)
+		}
 		if crashEnum {
 			w.mu.Lock()
 			crashed := nd.inc > 1 && !nd.down && !nd.dead
